@@ -39,6 +39,8 @@ def segments(wind_spec, shift=0.0):
     for mph, deg, until in wind_spec:
         v = mph * 5280.0 / 3600.0
         r = math.radians(deg)
+        if isinstance(until, (list, tuple)):
+            until = until[0] * {'Yard': 1.0, 'Meter': 1 / 0.9144, 'Foot': 1 / 3.0, 'Inch': 1 / 36.0}[until[1]]     # -> yards (exact definitions)
         out.append((until * 3.0 + shift if until is not None else 1e8, (v * math.cos(r), 0.0, v * math.sin(r))))
     return sorted(out, key=lambda s: s[0])
 
